@@ -131,6 +131,11 @@ func (e *vC16Env) publish(history bool) vTaggedPub {
 	p := vTaggedPub{hasK: kb == 'k', val: vByte("tagVal"), data: byte('a' + len(e.pubs))}
 	tags := map[string]string{string([]byte{kb}): string([]byte{p.val})}
 	opts := []PublishOption{WithTags(tags)}
+	if vParam("c16_notags", 1) == 1 && vChoice("untagged", 2) == 1 {
+		// a publication without any tags: the filtered key is absent
+		p.hasK = false
+		opts = nil
+	}
 	if history {
 		opts = append(opts, WithHistory(8, vHistTTL))
 	}
